@@ -391,7 +391,8 @@ func buildScenario(r *vf.Rand, idx int) *scenario {
 		if r.Chance(0.3) && s.kind != kDense {
 			st.shaped = true
 			st.shape = gen.RandomShape(r)
-			st.shape.Padding = 0 // payload length = what the statement counts; no padding games
+			// padding flag and count are header fields: the payload handed to Write never contains
+			// the padding, so the octet count is still the sum of the payload lengths
 		}
 		s.streams = append(s.streams, st)
 	}
